@@ -5,7 +5,7 @@
    so (with C05_degree_test) the interpolated quotient is short and proving succeeds. *)
 From Coq Require Import ZArith List Bool Arith Lia Ring Field Permutation.
 From PlonkV Require Import Base.Fr Base.FrFacts Gates.Gate Gates.CS Gates.GateFacts Gates.Separation Alg.Poly Alg.PolyFacts Alg.PermArg
-  Alg.FFT Alg.FFTFacts Alg.FFTInverse Alg.Lagrange.
+  Alg.FFT Alg.FFTFacts Alg.FFTInverse Alg.Lagrange Alg.Divisibility Alg.PermSound.
 Import ListNotations.
 Local Open Scope fr_scope.
 
@@ -212,3 +212,132 @@ Proof.
 Qed.
 End Interp.
 Print Assumptions blinded_at_domain.
+
+(* ---- the labels k_j * w^i of the 4n wire positions are pairwise distinct: the cosets H, 7H, 13H, 17H
+   of the 2-power subgroups are disjoint and w is primitive ---- *)
+Section Labels.
+Context {PR : PrimeR}.
+Add Field FrFieldLabels : fr_field_theory.
+
+Lemma pow2k_one_pow32 x k : (k <= 32)%nat -> fpow_nat x (Nat.pow 2 k) = 1 -> sq_iter x 32 = 1.
+Proof.
+  intros Hk E. rewrite (sq_iter_pow x 32 x eq_refl).
+  replace (Nat.pow 2 32) with (Nat.pow 2 k * Nat.pow 2 (32 - k))%nat by (rewrite <- Nat.pow_add_r; f_equal; lia).
+  rewrite fpow_nat_mul, E. apply fpow_nat_one.
+Qed.
+
+Lemma cosets_disjoint j j' : (j < 4)%nat -> (j' < 4)%nat -> j <> j' ->
+  sq_iter (kcoef j * finv (kcoef j')) 32 <> 1.
+Proof.
+  intros Hj Hj' Ne.
+  destruct j as [|[|[|[|j]]]]; try lia; destruct j' as [|[|[|[|j']]]]; try lia;
+    intros Y; apply (f_equal val) in Y; vm_compute in Y; discriminate Y.
+Qed.
+
+Lemma positions_in n j i : In (j, i) (positions n) <-> (j < 4)%nat /\ (i < n)%nat.
+Proof.
+  unfold positions. rewrite in_flat_map. split.
+  - intros [x [Hx H]]. apply in_seq in Hx. cbn [In] in H.
+    repeat (destruct H as [H|H]; [injection H as <- <-; lia|]). contradiction.
+  - intros [Hj Hi]. exists i. split; [apply in_seq; lia|].
+    destruct j as [|[|[|[|j]]]]; cbn [In]; try lia; tauto.
+Qed.
+
+Lemma positions_length n : length (positions n) = (4 * n)%nat.
+Proof.
+  unfold positions. rewrite <- (seq_length n 0) at 2.
+  induction (seq 0 n) as [|a l IH]; [reflexivity|]. cbn [flat_map length app]. rewrite IH. cbn [length]. lia.
+Qed.
+
+Lemma positions_nodup n : NoDup (positions n).
+Proof.
+  unfold positions. pose proof (seq_NoDup n 0) as ND.
+  assert (G : forall l : list nat, NoDup l -> NoDup (flat_map (fun i => [(0, i); (1, i); (2, i); (3, i)]%nat) l)).
+  { induction l as [|a l IH]; intros H; [constructor|]. inversion H as [|? ? Hn Hd]; subst.
+    cbn [flat_map app].
+    assert (Out : forall j, ~ In (j, a) (flat_map (fun i => [(0, i); (1, i); (2, i); (3, i)]%nat) l)).
+    { intros j I. apply in_flat_map in I. destruct I as [x [Hx I]]. cbn [In] in I.
+      repeat (destruct I as [I|I]; [injection I as _ <-; contradiction|]). contradiction. }
+    repeat constructor; try apply IH; try exact Hd; cbn [In]; intros I;
+      repeat (destruct I as [I|I]; [discriminate|]); try (eapply Out; exact I). }
+  apply G. exact ND.
+Qed.
+
+Lemma kcoef_nonzero j : kcoef j <> 0.
+Proof.
+  destruct j as [|[|[|j]]]; cbn [kcoef]; intros Z; apply (f_equal val) in Z; vm_compute in Z; discriminate Z.
+Qed.
+
+Lemma ident_injective k : (1 <= k <= 32)%nat ->
+  forall p q, In p (positions (Nat.pow 2 k)) -> In q (positions (Nat.pow 2 k)) ->
+  ident (domain_gen k) p = ident (domain_gen k) q -> p = q.
+Proof.
+  intros Hk [j i] [j' i'] Ip Iq E. apply positions_in in Ip, Iq. destruct Ip as [Hj Hi], Iq as [Hj' Hi'].
+  unfold ident in E. cbn [fst snd] in E. set (w := domain_gen k) in *.
+  assert (Wn : w <> 0) by (apply domain_gen_nonzero; lia).
+  assert (Half : fpow_nat w (Nat.pow 2 (k - 1)) = - (1)) by (apply domain_gen_half; exact Hk).
+  assert (Ord : fpow_nat w (Nat.pow 2 k) = 1) by (apply domain_gen_order; lia).
+  assert (Pnz : forall m, fpow_nat w m <> 0).
+  { induction m as [|m IH]; cbn [fpow_nat]; [exact fone_neq_fzero|]. intros Z. apply fmul_integral in Z. destruct Z; contradiction. }
+  assert (Same : j = j' -> i = i').
+  { intros <-. pose proof (kcoef_nonzero j) as Kn.
+    assert (Ew : fpow_nat w i = fpow_nat w i').
+    { transitivity (finv (kcoef j) * (kcoef j * fpow_nat w i)); [field; exact Kn|]. rewrite E. field. exact Kn. }
+    pose proof (powers_nodup k w ltac:(lia) Half Wn) as ND. rewrite powers_spec in ND.
+    apply (nodup_map_injective (fpow_nat w) _ ND); [apply in_seq; lia|apply in_seq; lia|exact Ew]. }
+  destruct (Nat.eq_dec j j') as [Ej|Nj]; [rewrite (Same Ej), Ej; reflexivity|exfalso].
+  (* different cosets *)
+  apply (cosets_disjoint j j' Hj Hj' Nj).
+  apply (pow2k_one_pow32 _ k ltac:(lia)).
+  pose proof (kcoef_nonzero j') as Kn'.
+  assert (R : kcoef j * finv (kcoef j') = fpow_nat w i' * finv (fpow_nat w i)).
+  { transitivity ((kcoef j * fpow_nat w i) * finv (kcoef j') * finv (fpow_nat w i)); [field; split; [apply Pnz|exact Kn']|].
+    rewrite E. field. split; [apply Pnz|exact Kn']. }
+  rewrite R, fpow_nat_mul_base.
+  assert (P1 : forall m, fpow_nat (fpow_nat w m) (Nat.pow 2 k) = 1).
+  { intros m. rewrite <- fpow_nat_mul, Nat.mul_comm, fpow_nat_mul, Ord. apply fpow_nat_one. }
+  rewrite P1.
+  assert (P2 : fpow_nat (finv (fpow_nat w i)) (Nat.pow 2 k) = 1).
+  { transitivity (fpow_nat (finv (fpow_nat w i)) (Nat.pow 2 k) * fpow_nat (fpow_nat w i) (Nat.pow 2 k)); [rewrite P1; ring|].
+    rewrite <- fpow_nat_mul_base. replace (finv (fpow_nat w i) * fpow_nat w i) with 1 by (field; apply Pnz). apply fpow_nat_one. }
+  rewrite P2. ring.
+Qed.
+End Labels.
+
+(* ---- converse for the copy constraints, with explicit counting: if the products close for more than
+   (4n)^2 values of beta and, for each, more than 4n values of gamma, every copy constraint holds ---- *)
+Section CopySound.
+Context {PR : PrimeR}.
+
+Theorem copies_from_closing rows asg k sigma (Bs Gs : list Fr) :
+  (1 <= k <= 32)%nat -> nrows rows = Nat.pow 2 k ->
+  let n := Nat.pow 2 k in
+  let w := domain_gen k in
+  Permutation (map sigma (positions n)) (positions n) ->
+  NoDup Bs -> (4 * n * (4 * n) < length Bs)%nat ->
+  NoDup Gs -> (4 * n < length Gs)%nat ->
+  (forall beta gamma, In beta Bs -> In gamma Gs ->
+     fprod (map (pnum w (col_a rows asg) (col_b rows asg) (col_c rows asg) (col_d rows asg) beta gamma) (seq 0 n))
+     = fprod (map (pden (col_a rows asg) (col_b rows asg) (col_c rows asg) (col_d rows asg)
+                        (sg w sigma 0) (sg w sigma 1) (sg w sigma 2) (sg w sigma 3) beta gamma) (seq 0 n))) ->
+  forall p, In p (positions n) -> wv rows asg (sigma p) = wv rows asg p.
+Proof.
+  intros Hk Hn n w Hperm NB LB NG LG Hclose.
+  apply (closing_forces_copies wpos (positions n) sigma (ident w) (wv rows asg) (positions_nodup n) Hperm
+           (ident_injective k Hk) Bs Gs).
+  - rewrite positions_length. unfold n.
+    assert (B : (Z.of_nat (Nat.pow 2 k) <= 2 ^ 32)%Z).
+    { rewrite Nat2Z.inj_pow. change (Z.of_nat 2) with 2%Z. apply Z.pow_le_mono_r; lia. }
+    assert (E : (4 * 2 ^ 32 + 1 <= r)%Z) by (vm_compute; discriminate).
+    lia.
+  - exact NB.
+  - rewrite positions_length. exact LB.
+  - exact NG.
+  - rewrite positions_length. exact LG.
+  - intros beta gamma Ib Ig.
+    pose proof (numerators_by_row rows asg w beta gamma) as E1.
+    pose proof (denominators_by_row rows asg w sigma beta gamma) as E2.
+    rewrite Hn in E1, E2. fold n in E1, E2. rewrite E1, E2. apply Hclose; assumption.
+Qed.
+End CopySound.
+Print Assumptions copies_from_closing.
